@@ -1221,6 +1221,9 @@ class If(BeginStatement):
             newitem = self.get_item()
         else:
             newitem = item.copy(line, apply_map=True)
+            # The statement label belongs to the IF statement, not to the
+            # action statement within it.
+            newitem.label = None
         newline = newitem.get_line()
         for cls in classes:
             if cls.match(newline):
